@@ -10,6 +10,7 @@ import Driver.Call
 import Driver.KA
 import Driver.Conv
 import Driver.Frame
+import Driver.ConnM
 /- Line-protocol driver: `driver <topic>` reads one op per line on stdin, prints one line per op. -/
 open Driver
 
@@ -41,4 +42,5 @@ def main (args : List String) : IO UInt32 := do
   | ["ka"] => loop stdin stdout Driver.KA.step (); return 0
   | ["conv"] => loop stdin stdout Driver.Conv.step (); return 0
   | ["frame"] => loop stdin stdout Driver.Frame.step {}; return 0
+  | ["conn"] => loop stdin stdout Driver.ConnM.step {}; return 0
   | _ => IO.eprintln "usage: driver <topic>"; return 2
